@@ -71,6 +71,7 @@ structure NetCfg where
   unpack : List String      -- the 16 names on the left of `= map(int, fields)`
   output : List String      -- the names in the tuple stored in `retdict[name]`
   stripSet : Option (List Nat)  -- `line[:colon].strip()` (none) or `.strip(chars)` (some chars)
+  univNl : Bool             -- `open_text` reads with universal newlines (true) or `newline="\n"` (false)
 
 /-- which characters `line[:colon].strip(…)` removes from both ends of the name -/
 def NetCfg.nameWs (cfg : NetCfg) : Nat → Bool :=
@@ -102,11 +103,13 @@ def netFold (cfg : NetCfg) : Dict → List Bytes → Res Dict
     | .err e => .err e
     | .ok (name, t) => netFold cfg (d.set name t) ls
 
-/-- lines of a text-mode file: universal newlines, then split at `\n` -/
-def textLines (file : Bytes) : List Bytes := linesOf (univNl file)
+/-- lines of a text-mode file: universal-newline translation (when `open_text` asks for it),
+    then split at `\n` -/
+def textLines (univ : Bool) (file : Bytes) : List Bytes :=
+  linesOf (if univ then univNl file else file)
 
 def netPlatform (cfg : NetCfg) (file : Bytes) : Res Dict :=
-  netFold cfg [] ((textLines file).drop cfg.skip)
+  netFold cfg [] ((textLines cfg.univNl file).drop cfg.skip)
 
 /-! ### `_pslinux.disk_io_counters` (read_procfs branch) -/
 
@@ -129,6 +132,7 @@ structure DiskCfg where
   skipPartitions : Bool           -- the guard is `not perdisk and not is_storage_device(name)`
   slashFrom : Nat                 -- `name.replace('/', '!')`
   slashTo : Nat
+  univNl : Bool                   -- as in `NetCfg`
 
 def guardHolds (g : List (Bool × Nat)) (flen : Nat) : Bool :=
   g.any fun c => if c.1 then decide (c.2 ≤ flen) else decide (flen = c.2)
@@ -202,7 +206,7 @@ def diskFold (cfg : DiskCfg) (storage : Bytes → Bool) (perdisk : Bool) : Dict 
       else diskFold cfg storage perdisk (d.set name t) ls
 
 def diskPlatform (cfg : DiskCfg) (storage : Bytes → Bool) (perdisk : Bool) (file : Bytes) : Res Dict :=
-  diskFold cfg storage perdisk [] (textLines file)
+  diskFold cfg storage perdisk [] (textLines cfg.univNl file)
 
 /-! ### front ends `psutil.net_io_counters(pernic, nowrap=False)` /
     `psutil.disk_io_counters(perdisk, nowrap=False)` -/
